@@ -1,0 +1,13 @@
+//go:build verif
+
+package replicator
+
+import (
+	oid "github.com/nspcc-dev/neofs-sdk-go/object/id"
+)
+
+// VerifCopiesNumber returns the number of copies the task asks for.
+func (t Task) VerifCopiesNumber() uint32 { return t.quantity }
+
+// VerifObjectAddress returns the address of the object to replicate.
+func (t Task) VerifObjectAddress() oid.Address { return t.addr }
